@@ -191,7 +191,7 @@ def lexical(run: Run, g, cls):
         run.counters["smt_queries"] += 1
         run.counters["smt_time_s"] += dt
         if verdict == "equal":
-            run.ob(name, "z3-re", HELD, time_s=round(dt, 3), bound="all strings over ASCII+∧∨⊻, no length bound")
+            run.ob(name, "z3-re", HELD, time_s=round(dt, 3), bound=sre2z3.BOUND)
         elif verdict == "differ":
             w = sre2z3.unescape_z3(wit)
             documented = re.fullmatch(pat, w) is not None
@@ -206,6 +206,100 @@ def lexical(run: Run, g, cls):
                 run.ob(name, "z3-re", INCONCLUSIVE, detail=f"terminal regex differs from /{pat}/ on {w!r} but '{text}' is still judged as documented")
         else:
             run.ob(name, "z3-re", INCONCLUSIVE, detail="unknown")
+
+
+def _ahb_entrypoints(text: str):
+    """outcomes of the AHB-level entry points on `text` (native, real asyncio loop): each 'tree' | 'SyntaxError' | ('tuple', value) | 'raised <type>'"""
+    import asyncio
+
+    import ahbicht.content_evaluation as ce
+    from ahbicht.expressions.ahb_expression_evaluation import evaluate_ahb_expression_tree
+    from ahbicht.expressions.ahb_expression_parser import parse_ahb_expression_to_single_requirement_indicator_expressions as parse_ahb
+    from ahbicht.expressions.expression_resolver import parse_expression_including_unresolved_subexpressions as resolve
+    from ahbicht.models.condition_nodes import ConditionFulfilledValue as V
+    from vf import env
+
+    def outcome(thunk):
+        try:
+            r = thunk()
+        except SyntaxError:
+            return "SyntaxError"
+        except Exception as e:  # pylint:disable=broad-except
+            return f"raised {type(e).__name__}: {str(e)[:80]}"
+        return ("tuple", r) if isinstance(r, tuple) else "tree"
+
+    env.setup(rc={"1": V.FULFILLED})
+    out = {"AHB parser": outcome(lambda: parse_ahb(text)), "resolver": outcome(lambda: asyncio.run(resolve(text))), "is_valid_expression": outcome(lambda: asyncio.run(ce.is_valid_expression(text, lambda _x: None)))}
+
+    def evaluate():
+        asyncio.run(evaluate_ahb_expression_tree(parse_ahb(text)))
+        return "tree"
+
+    out["evaluation"] = outcome(evaluate)
+    return out
+
+
+def _ahb_indicator_problem(text: str):
+    o = _ahb_entrypoints(text)
+    for name in ("AHB parser", "resolver", "evaluation"):
+        if o[name] not in ("tree", "SyntaxError"):
+            return f"{name}({text!r}) ended with '{o[name]}', expected a tree/result or SyntaxError"
+    v = o["is_valid_expression"]
+    if not (isinstance(v, tuple) and isinstance(v[1], tuple) and len(v[1]) == 2 and isinstance(v[1][0], bool)):
+        return f"is_valid_expression({text!r}) ended with '{v}' instead of returning (bool, message)"
+    if o["AHB parser"] == "SyntaxError" and o["resolver"] != "SyntaxError":
+        return f"the AHB parser rejects {text!r} but the resolver ends with {o['resolver']}"
+    if v[1][0] is True and o["evaluation"] != "tree":
+        return f"is_valid_expression({text!r}) = (True, ...) but evaluation ended with {o['evaluation']}"
+    if v[1][0] is False and o["evaluation"] == "tree" and o["AHB parser"] == "tree":
+        return f"is_valid_expression({text!r}) = {v[1]!r} but the expression parses and evaluates"
+    return None
+
+
+def ahb_indicators(run: Run):
+    """the finite languages of the live indicator terminals, enumerated completely by z3 over all code points (Unicode case
+    folding included), each lexeme as indicator of three AHB expressions through all AHB-level entry points"""
+    from vf import env
+
+    lark_obj = env.real_parser("ahb")
+    for t in lark_obj.terminals:
+        if t.name not in ("MODAL_MARK", "PREFIX_OPERATOR"):
+            continue
+        lname = f"every lexeme of the live AHB terminal {t.name} as indicator ('<L> [1]', '<L>', 'Muss [1] <L>'): tree or SyntaxError from parser/resolver/evaluation, (bool, message) from the validity check, check and evaluation agree"
+        try:
+            live = sre2z3.lark_terminal_re(t)
+        except sre2z3.Unsupported as u:
+            run.ob(lname, "z3-re+replay", INCONCLUSIVE, detail=str(u))
+            continue
+        s = z3.String("s")
+        sol = z3.Solver()
+        sol.set("timeout", 20000)
+        sol.add(z3.InRe(s, live))
+        members, complete = [], False
+        while len(members) < 400:
+            r = sol.check()
+            run.counters["smt_queries"] += 1
+            if str(r) == "unsat":
+                complete = True
+                break
+            if str(r) != "sat":
+                break
+            v = sre2z3.unescape_z3(sol.model()[s].as_string())
+            members.append(v)
+            sol.add(s != z3.StringVal(v))
+        bad = None
+        for v in members:
+            for text in (f"{v} [1]", v, f"Muss [1] {v}"):
+                run.counters["replayed_witnesses"] += 1
+                why = _ahb_indicator_problem(text)
+                if why and bad is None:
+                    bad = (v, text, why)
+        if bad:
+            v, text, why = bad
+            run.ob(lname, "z3-re+replay", VIOLATED, detail=why)
+            run.violation(lname, why, {"part": "ahb-indicator", "terminal": t.name, "non_ascii_lexeme": not v.isascii(), "raises": "raised" in why}, {"kind": "C02-ahb", "property": "C02", "text": text})
+        else:
+            run.ob(lname, "z3-re+replay", HELD if complete else INCONCLUSIVE, bound=f"{len(members)} lexemes, enumeration {'complete (unsat after blocking)' if complete else 'INCOMPLETE'}; " + sre2z3.BOUND)
 
 
 def xh_part(run: Run):
@@ -229,6 +323,10 @@ def main(run: Run) -> int:
         gs_language(run, N)
     except (gs.Unsupported, sre2z3.Unsupported) as u:
         run.ob("GS encoding of the live grammar", "GS", INCONCLUSIVE, detail=f"grammar outside the encodable subset ({u}); the XH harnesses still run")
+    try:
+        ahb_indicators(run)
+    except sre2z3.Unsupported as u:
+        run.ob("AHB indicator terminals", "z3-re+replay", INCONCLUSIVE, detail=str(u))
     xh_part(run)
     run.assume(
         "token level: a string is in the parser's language iff it is a concatenation of lexemes of a token sequence of the grammar with optional whitespace between tokens (Earley with dynamic lexer; validated on solver-chosen members/non-members through the real parser)",
@@ -257,4 +355,7 @@ def replay(p: dict) -> dict:
         except Exception:  # pylint:disable=broad-except
             acc = False
         return {"outcome": "fail" if acc != p["documented"] else "pass", "what": f"parser {'accepts' if acc else 'rejects'} {p['text']!r}; documented language: {'member' if p['documented'] else 'not a member'}"}
+    if p.get("kind") == "C02-ahb":
+        why = _ahb_indicator_problem(p["text"])
+        return {"outcome": "fail" if why else "pass", "what": why or f"{p['text']!r}: all AHB-level entry points behave as stated"}
     return {"outcome": "harness-error", "detail": "unknown kind"}
